@@ -1,5 +1,6 @@
 import Gallia.Model.ClientConc
 import Gallia.Proofs.Lemmas.ClientMulti
+import Gallia.Proofs.Lemmas.ClientMultiReply
 import Gallia.Gen.C05Locks
 /-
   C05 — Concurrent users of one UDS client never interleave their exchanges.
@@ -500,6 +501,242 @@ theorem stop_terminates (P : Progs) (hP : WF P) (born : Tid → Bool) (cs : List
       exact ended_task_is_silent P cs' s2 s'' hr w hd2
     · have hu2 : s2.tasks u = s1.tasks u := hfr u (fun e => hne e.symm)
       exact join_step P s2 u w rest (by rw [hu2]; exact hp1) (by rw [hu2]; exact hs1) (by rw [hu2]; exact ht1) hd2
+
+/-! ### replies: one inbox, whoever reads next gets the message -/
+
+open Gallia.UdsReq Gallia.UdsMatch Gallia.Reply Gallia.Client Gallia.ClientIO in
+/-- **own_reply_or_error**: task `t` calls `request()` for request `r` over its script `io`; the transport has one inbox
+    and late replies to other tasks' earlier requests are handed to whoever reads next.  For every schedule:
+    (1) every message `t` has consumed was classified by `parse_pdu` against `t`'s OWN request, and a message that is
+        `Foreign` to `r` (reply of another service, negative response naming another service, positive reply echoing
+        another primary identifier - e.g. the late reply to another caller's request; `Spec/Reply.lean`) was refused as
+        mismatch: the request ends with IllegalResponse for that read, never with that message as its result;
+    (2) when the call has returned a reply, that reply is a message `t` itself consumed, accepted by `parse_pdu` against
+        `r`, and not foreign to `r`.
+    The caveat is the hypothesis `Foreign r b`: a late reply to a byte-identical request (`classify_bytes`) and a late
+    negative response naming the same service are not foreign - UDS has no sequence numbers (`same_service_negative_not_foreign`). -/
+theorem own_reply_or_error (P : Progs) (hP : WF P) (born : Tid → Bool) (cs : List Choice) (s : MSys)
+    (h : mrun P (MSys.init P born) cs = some s) (t : Tid) (c : CfgX) (r : Req) (io : Script)
+    (hp : P t = Prog.request c r io) (hwf : r.WF) :
+    (∀ n k b, (n, k, b) ∈ (s.tasks t).reads → classify r b = io.rd k ∧
+      (Foreign r b → io.rd k = .mismatch ∧ (requestX c io).out = .base (.illegal k))) ∧
+    (finished (s.tasks t) = true → ∀ k, (requestX c io).out = .base (.reply k) →
+      ∃ b x, (0, k, b) ∈ (s.tasks t).reads ∧ parsePdu b r = .accepted x ∧ ¬ Foreign r b) := by
+  have hro := run_readsOk P cs _ s (init_readsOk P born) h t
+  have hi := (rinv_run P hP cs _ s (rinv_init P hP born) h).1
+  have hround : ∀ n, (P t).round n = Round.request c r io := by intro n; rw [hp]; rfl
+  have hcls : ∀ n k b, (n, k, b) ∈ (s.tasks t).reads → classify r b = io.rd k ∧ ∃ tmo d, OpX.rd k tmo d ∈ (runX c io).trace := by
+    intro n k b hm
+    obtain ⟨h1, _, tmo, d, h3⟩ := hro.classified n k b hm
+    rw [hround n] at h1 h3
+    exact ⟨h1, tmo, d, (mem_request_acts c r io k tmo d).mp h3⟩
+  constructor
+  · intro n k b hm
+    obtain ⟨h1, tmo, d, h3⟩ := hcls n k b hm
+    refine ⟨h1, ?_⟩
+    intro hf
+    have hmm : io.rd k = .mismatch := by rw [← h1]; exact classify_foreign r hwf b hf
+    exact ⟨hmm, (runX_read_decides c io k tmo d h3).1 (by rw [hmm]; rfl)⟩
+  · intro hfin k hk
+    simp only [finished, Bool.and_eq_true, beq_iff_eq, Bool.not_eq_true'] at hfin
+    obtain ⟨hdone, hnab⟩ := hfin
+    have htodo : (s.tasks t).todo = [] := by have := hi.ok t; simp only [PhaseOk, hdone] at this; exact this
+    have hr0 : (s.tasks t).round = 0 := by
+      rcases hro.roundOk with h0 | h0
+      · exact h0
+      · rw [hp] at h0; simp [Prog.request, Prog.hasRound] at h0; exact h0
+    have hhas : (P t).hasRound (s.tasks t).round = true := by rw [hr0, hp]; rfl
+    obtain ⟨pre, hpre, hcov⟩ := hro.current hnab (by rw [hdone]; intro e; cases e) hhas
+    rw [htodo, List.append_nil, hr0] at hpre
+    rw [hr0] at hcov
+    obtain ⟨⟨tmo, d, hmem⟩, hrep⟩ := (runX_out_read c io k).1 hk
+    have hact : Act.io (.rd k tmo d) ∈ pre := by
+      rw [← hpre, hround 0]; exact (mem_request_acts c r io k tmo d).mpr hmem
+    have hcons : consuming (((P t).round 0).rd k) = true := by
+      rw [hround 0]; show consuming (io.rd k) = true
+      cases hev : io.rd k <;> simp_all [replyEv, consuming]
+    obtain ⟨b, hb⟩ := hcov k tmo d hact hcons
+    obtain ⟨h1, _⟩ := hcls 0 k b hb
+    have hrb : replyEv (classify r b) = true := by rw [h1]; exact hrep
+    obtain ⟨x, hx⟩ := classify_reply_accepted r b hrb
+    exact ⟨b, x, hb, hx, reply_not_foreign r hwf b hrb⟩
+
+open Gallia.UdsReq Gallia.Reply in
+/-- the reply-crossing case of the tie: the positive reply to another caller's ReadDataByIdentifier request for a
+    different identifier is foreign to this caller's request (so `own_reply_or_error` applies to it) -/
+theorem rdbi_cross_is_foreign (d d' : Nat) (b : Bytes) (hne : d ≠ d') (hg : Genuine (.rdbi [d']) b)
+    (hpos : isNegative b = false) : Foreign (.rdbi [d]) b := by
+  unfold Genuine genuineB at hg
+  unfold Foreign foreignB
+  simp only [Reply.reqSid, encode] at hg ⊢
+  simp only [List.head?_cons, hpos, Bool.false_and, Bool.false_or, Bool.and_eq_true] at hg ⊢
+  obtain ⟨hd, hp, he⟩ := hg
+  simp only [view, echoOK, List.head?_cons, beq_iff_eq] at he
+  simp [hp, hd, view, echoOK, he]
+  exact fun e => hne e.symm
+
+open Gallia.UdsReq Gallia.Reply in
+/-- the caveat of `own_reply_or_error`, made explicit: a negative response naming the service of the request is never
+    foreign to it, whichever request of that service it was sent for (UDS negative responses carry the service id only) -/
+theorem same_service_negative_not_foreign (r : Req) (s nrc : UInt8) (rest : Bytes) (hs : Reply.reqSid r = some s) :
+    ¬ Foreign r (0x7F :: s :: nrc :: rest) := by
+  unfold Foreign foreignB
+  rw [hs]
+  simp [isNegative, positiveOf]
+
+/-! ### the tester-present worker -/
+
+open Gallia.Client Gallia.ClientIO in
+/-- **worker_only_via_lock**: in a system made of gallia's callers, the tester-present worker `w` (interval `iv`) does in
+    every pass of its loop exactly: the interval sleep outside the client, then one `request()` with `max_retry = 0` -
+    acquire, one transmission at most, no backoff sleep, release; whenever its next await point touches the transport
+    it holds the client, and every transport operation of `w` in the event trace happens while `w` is the holder -/
+theorem worker_only_via_lock (P : Progs) (hreal : ∀ t, RealProg (P t)) (born : Tid → Bool) (cs : List Choice) (s : MSys)
+    (h : mrun P (MSys.init P born) cs = some s) (w : Tid) (iv : Nat) (c : CfgX) (ios : Nat → Script)
+    (hw : P w = Prog.worker iv c ios) :
+    (∀ n, ((P w).round n).acts =
+      .io (.sl iv) :: .acquire :: ((runX (workerCfg c) (ios n)).trace.map Act.io ++ [.release])) ∧
+    (∀ n, (runX (workerCfg c) (ios n)).writes ≤ 1 ∧ (runX (workerCfg c) (ios n)).sleeps = []) ∧
+    (∀ a rest, ((s.tasks w).phase = .idle ∨ (s.tasks w).phase = .holding) → (s.tasks w).todo = a :: rest →
+      a.isWire = true → s.lock.holder = some w) ∧
+    (∀ pre post k, s.events = pre ++ Event.op w k :: post → ∃ s1, accept Sys.init pre = some s1 ∧ s1.holder = some w) := by
+  have hP := real_wf P hreal
+  refine ⟨?_, ?_, ?_, ?_⟩
+  · intro n
+    rw [hw]
+    show Act.io (.sl iv) :: (requestX (workerCfg c) (ios n)).trace.map Act.ofReq = _
+    rw [request_acts]
+  · intro n
+    have hb := (attemptsX_bounds (workerCfg c) (ios n) 0 0 0 (.missing false)).writes
+    have hs := attemptsX_sleeps (workerCfg c) (ios n) 0 0 0 (.missing false)
+    constructor
+    · simpa [runX, ResX.writes, workerCfg] using hb
+    · have : ((List.range' 0 ((workerCfg c).maxRetry - 0)).map (waitX (workerCfg c))) = [] := by simp [workerCfg]
+      rw [this] at hs
+      simpa [runX, ResX.sleeps] using hs
+  · intro a rest hc htodo hwire
+    exact (wire_op_by_holder P hP born cs s h w a rest hc htodo hwire).1
+  · intro pre post k he
+    exact ops_by_holder Sys.init s.lock pre post w k (by rw [← he]; exact events_accepted P hP born cs s h)
+
+/-! ### (T) where the code touches a mutex, regenerated from the AST on every run -/
+
+/-- **lock_sites_agree**: in client.py, ecu.py and transports/base.py a mutex is created in the two constructors and
+    used in exactly four places, each an `async with self.mutex` block (`UDSClient.reconnect`, `UDSClient._request`,
+    `BaseTransport.reconnect`, `BaseTransport.request`); there is no bare `.acquire()` / `.release()` / `.locked()` call
+    and no re-assignment of a mutex.  `async with` releases exactly what it acquired, on return, exception and
+    cancellation: this is what makes the callers' programs bracketed (`wfIn`, `real_wf`) -/
+theorem lock_sites_agree : Gen.C05Locks.lockSites = [
+    ("client", "UDSClient.__init__", "create", "self.mutex"),
+    ("client", "UDSClient.reconnect", "asyncWith", "self.mutex"),
+    ("client", "UDSClient._request", "asyncWith", "self.mutex"),
+    ("base", "BaseTransport.__init__", "create", "self.mutex"),
+    ("base", "BaseTransport.reconnect", "asyncWith", "self.mutex"),
+    ("base", "BaseTransport.request", "asyncWith", "self.mutex")] := by decide
+
+/-- the methods that use the transport without taking the client lock themselves -/
+def unlockedFns : List String :=
+  ["UDSClient.request_unsafe", "UDSClient.reconnect_unsafe", "UDSClient._read", "UDSClient._tester_present",
+   "BaseTransport.request_unsafe"]
+
+/-- a call of an unlocked method is either lexically inside `async with <mutex>` or made by another unlocked method;
+    nobody calls `_tester_present` (its `suppress_resp=True` branch writes without the lock) -/
+def callGuarded (c : String × String × String × Bool) : Bool :=
+  (c.2.2.2 || unlockedFns.contains c.2.1) && c.2.2.1 != "_tester_present"
+
+/-- **unlocked_calls_guarded**: every call of `request_unsafe` / `reconnect_unsafe` / `_read` / `transport.write|read|
+    request|request_unsafe|reconnect|close` in client.py, ecu.py, transports/base.py is inside an `async with
+    <mutex>` block or inside one of the unlocked methods, whose only entry points are therefore the locked ones; the
+    lock-free `_tester_present` has no caller.  (`ECU` adds no transport access of its own: all of ecu.py goes
+    through `request()` / `reconnect()`.) -/
+theorem unlocked_calls_guarded :
+    Gen.C05Locks.unlockedCalls.all callGuarded = true ∧
+    (Gen.C05Locks.unlockedCalls.filter (fun c => c.1 == "ecu")).length = 0 := by decide
+
+/-! ### non-vacuity: concrete systems, evaluated by the kernel -/
+
+section Examples
+open Gallia.Client Gallia.ClientIO Gallia.UdsReq
+
+def exCfg (maxRetry : Nat) : CfgX := ⟨maxRetry, some 1000, some 1000, 0, Limits.std⟩
+def exScript (w : List WEv) (r : List Ev) (rc : List RcEv) : Script :=
+  ⟨fun j => w.getD j .ok, fun k => r.getD k .timeout, fun m => rc.getD m .ok⟩
+
+/-- caller 1 reads identifier 0x1000 (its reply comes late: timeout), caller 2 reads 0x1001 with one retry after a lost
+    connection, task 3 is the tester-present worker, task 4 starts and stops it -/
+def exP : Progs := fun t =>
+  if t = 1 then Prog.request (exCfg 0) (.rdbi [0x1000]) (exScript [] [.timeout] [])
+  else if t = 2 then Prog.request (exCfg 1) (.rdbi [0x1001]) (exScript [] [.mismatch] [])
+  else if t = 3 then Prog.worker 350 (exCfg 0) (fun _ => exScript [] [.posFinal] [])
+  else Prog.seq [Round.startWorker 3, Round.stopWorker 3]
+
+def exBorn : Tid → Bool := fun t => t == 1 || t == 2 || t == 4
+
+theorem exP_real : ∀ t, RealProg (exP t) := by
+  intro t
+  unfold exP
+  split
+  · exact .inl ⟨_, _, _, rfl⟩
+  · split
+    · exact .inl ⟨_, _, _, rfl⟩
+    · split
+      · exact .inr (.inr (.inl ⟨_, _, _, rfl⟩))
+      · refine .inr (.inr (.inr ⟨_, rfl, ?_⟩))
+        intro r hr
+        simp at hr
+        rcases hr with rfl | rfl
+        · exact .inr (.inr (.inr (.inr (.inl ⟨3, rfl⟩))))
+        · exact .inr (.inr (.inr (.inr (.inr ⟨3, rfl⟩))))
+
+/-- the schedule: 4 starts the worker; 1 obtains the client and transmits, 2 and the worker queue up behind it; 1 times
+    out and releases; 2 is granted the client (FIFO), transmits, and the LATE reply to 1's request (62 10 00 ..) arrives
+    while 2 reads: 2 gets IllegalResponse, not that reply; the worker is cancelled by `stop` while it waits for the client -/
+def exSched : List Choice :=
+  [.run 4, .run 4, .run 1, .run 1, .run 1, .run 2, .run 3, .run 3, .run 1, .run 1, .run 2, .run 2,
+   .deliver [0x62, 0x10, 0x00, 0xAB], .run 2, .run 2, .run 4, .cancel 3, .run 4]
+
+def exCheck (o : Option MSys) : Bool :=
+  match o with
+  | some s =>
+    s.lock.holder == none && s.lock.waiters == [] &&
+    finished (s.tasks 1) && finished (s.tasks 2) && finished (s.tasks 4) &&
+    (s.tasks 3).phase == .done && (s.tasks 3).aborted &&
+    (s.tasks 2).reads == [(0, 0, [0x62, 0x10, 0x00, 0xAB])] && (s.tasks 1).reads == [] &&
+    grantsOf s.events == [1, 2] && arrivalsOf s.events [] == [1, 2]
+  | none => false
+
+/-- the schedule is enabled step by step and ends as described: the hypotheses of the theorems above are satisfiable -/
+example : exCheck (mrun exP (MSys.init exP exBorn) exSched) = true := by decide +kernel
+
+example : (requestX (exCfg 1) (exScript [] [.mismatch] [])).out = .base (.illegal 0) ∧
+    (requestX (exCfg 0) (exScript [] [.timeout] [])).out = .base (.missing false) := by decide +kernel
+
+open Gallia.Reply in
+example : Foreign (.rdbi [0x1001]) [0x62, 0x10, 0x00, 0xAB] ∧ Genuine (.rdbi [0x1000]) [0x62, 0x10, 0x00, 0xAB] ∧
+    (Req.rdbi [0x1001]).WF ∧ classify (.rdbi [0x1001]) [0x62, 0x10, 0x00, 0xAB] = .mismatch := by decide +kernel
+
+/-- hypotheses of `cancel_safe`, `stop_terminates`, `progress_multi` (c): after this prefix the worker waits for the client
+    held by 1 with 2 ahead of it, and 4 is about to stop it -/
+example : (match mrun exP (MSys.init exP exBorn) (exSched.take 8) with
+    | some s => (s.tasks 3).phase == .waiting && s.lock.holder == some 1 && s.lock.waiters == [2, 3]
+    | none => false) = true := by decide +kernel
+
+/-- **why the bracketing matters** (the owner-less `asyncio.Lock.release()`): a program with a stray `release` - e.g. a
+    `finally: self.mutex.release()` reached by a task that never got the lock - is not bracketed, the step function lets
+    it free the lock held by task 1, task 3 is then granted the client and transmits in the middle of 1's exchange: the
+    event trace is rejected by the lock-discipline acceptor -/
+def strayP : Progs := fun t =>
+  if t = 2 then Prog.seq [⟨[.release], .raw [], fun _ => .timeout⟩]
+  else Prog.request (exCfg 0) (.rdbi [0x1000 + t]) (exScript [] [.timeout] [])
+
+theorem unbracketed_release_breaks_exclusion :
+    wfIn false ((strayP 2).round 0).acts = false ∧
+    (match mrun strayP (MSys.init strayP (fun t => t == 1 || t == 2 || t == 3)) [.run 1, .run 1, .run 1, .run 3, .run 2, .run 3, .run 3] with
+     | some s => s.events == [.want 1, .got 1, .op 1 .write, .want 3, .rel 2, .ended 2, .got 3, .op 3 .write] &&
+                 (accept Sys.init s.events).isNone
+     | none => false) = true := by decide +kernel
+
+end Examples
 
 end Multi
 
